@@ -116,6 +116,8 @@ def directed(rng):
         add('cb-note-%d' % v, P, [S(note()), D, dict(a='callback', c='cbA', **{'from': 'm1.1'}), S(call(1)), D, S(reply(1, v)), D, hret('m1.1'), D, hret('m2.1'), D])
         add('cb-two-%d' % v, P, [dict(a='callback', c='cbA'), dict(a='callback', c='cbB'), D, S(reply(2, v)), D, S(reply(1)), D])
         add('cb-stop-%d' % v, P, [dict(a='callback', c='cbA'), D, dict(a='stop'), D, dict(a='callback', c='cbB'), dict(a='notify'), D])
+        add('cb-restart-%d' % v, {'push': True, 'recvUnblocks': True}, [dict(a='callback', c='cbA'), D, dict(a='stop'), dict(a='gate', site='srv.read.lock'),
+                                   dict(a='gate', site='srv.next.lock'), dict(a='restart'), dict(a='callback', c='cbB'), D, S(reply(1 + v % 2, v)), D])
         add('cb-mixed-%d' % v, P, [dict(a='callback', c='cbA'), D, S(reply(1, v), call(1)), D, hret('m1.2'), D])
         add('nopush-%d' % v, {}, [dict(a='callback', c='cbA'), dict(a='notify'), D, S(reply(1, v)), D])
         add('invalid-mix-%d' % v, {'push': bool(v % 2)}, [S(call(1), inv(2, False, v), inv(0, True, v), inv(0, False, v), note('nf')), D, hret('m1.1'), D,
@@ -130,7 +132,7 @@ FAMILY = {
     'C06': (['srv_c06'], ['srv_c06', 'srv_c03'], ['srv_c06', 'srv_c03'], 45),
     'C07': (['srv_c07'], ['srv_c07', 'srv_c03'], ['srv_c07', 'srv_c06'], 45),
     'C08': (['srv_c08q'], ['srv_c08', 'srv_c08u'], ['srv_c08', 'srv_c08u', 'srv_c08r'], 50),
-    'C09': (['srv_c09'], ['srv_c09', 'srv_c09b'], ['srv_c09', 'srv_c09b'], 45),
+    'C09': (['srv_c09'], ['srv_c09', 'srv_c09b', 'srv_c09r'], ['srv_c09', 'srv_c09b', 'srv_c09r'], 45),
 }
 
 def gen_scenarios(prop, tier, seed, nsim):
